@@ -60,11 +60,12 @@ WalkT(tb, prefix, rt, state) ==
   \* a table may switch ITSELF off (its "self:" port is 'enabled by' a toggle of the same table, selfen = that toggle's id): the walk then
   \* reports the enabling port only - "an enabling port must always be traversed" (ports.cpp) - and nothing else of the table
   IF rt /\ "selfen" \in DOMAIN tb /\ tb.selfen # 0 /\ ~ state[tb.selfen]
-  THEN LET e == CHOOSE i \in 1..Len(tb.ports) : tb.ports[i].id = tb.selfen IN << [id |-> tb.selfen, addr |-> prefix \o Expand(tb.ports[e].pat.segs)[1]] >>
+  THEN LET e == CHOOSE i \in 1..Len(tb.ports) : tb.ports[i].id = tb.selfen  nm == Expand(tb.ports[e].pat.segs)[1] IN << [id |-> tb.selfen, addr |-> prefix \o nm, plen |-> Len(nm)] >>
   ELSE
   Concat([i \in 1..Len(tb.ports) |->
     LET p == tb.ports[i]  names == Expand(p.pat.segs) IN
-    IF p.leaf THEN [n \in 1..Len(names) |-> [id |-> p.id, addr |-> prefix \o names[n]]]
+    \* plen: the length of the port's own part of the address - the walker is handed a pointer to where that part begins
+    IF p.leaf THEN [n \in 1..Len(names) |-> [id |-> p.id, addr |-> prefix \o names[n], plen |-> Len(names[n])]]
     ELSE IF rt /\ (p.ptr = "null" \/ (p.enabledby # 0 /\ ~ state[p.enabledby])) THEN <<>>
     ELSE Concat([n \in 1..Len(names) |-> WalkT(p.sub, prefix \o names[n], rt, state)]) ])
 Walk(tree, prefix) == WalkT(tree, prefix, FALSE, <<>>)
